@@ -212,7 +212,7 @@ Fixpoint gem_scan (fuel : nat) (s : bytes) (racc : list gem_elem) : res (list ge
 (* Whether the trimming loop stops at the first non-zero element from the right (what
    Gem::Version does, the proposed repair) or, as the code stands, goes on down to index 0
    and truncates at every "0" it meets (F-C02-1). *)
-Definition gem_fix_zero_trim : bool := false.
+Definition gem_fix_zero_trim : bool := true.
 
 (* for i := len-1; i >= 0; i-- { if elements[i].str == "0" { elements = elements[:i] } }
    n = i+1 *)
